@@ -192,6 +192,11 @@ def runOp (d : EnumDef) (args : List String) : String :=
       | .ok out =>
         if d.customErr then showParseOut out ++ " calls=" ++ toString out.callLog.length
         else showParseOut out
+  | ["accepters", s] =>
+    -- how many candidate variants accept this input (the pointwise domain of C01)
+    match decodeStr s with
+    | none => "bad-op"
+    | some b => "n=" ++ toString (d.candidates.filter (fun v => accepts d v b)).length
   | ["names", k, _alt, inner, keys] =>
     match findVariant d k, decodeStr inner with
     | some v, some inner =>
